@@ -75,6 +75,10 @@ pub enum Op {
     PageWalk(u32),
     LazyAnnots(u32),
     LazyFont(u32),
+    /// operations of a form XObject
+    FormOps(u64),
+    /// catalog-level walks: destination name tree, page labels, outline chain
+    Trees,
 }
 
 impl Op {
@@ -89,6 +93,8 @@ impl Op {
             Op::PageWalk(_) => "page_walk".into(),
             Op::LazyAnnots(_) => "lazy_annots".into(),
             Op::LazyFont(_) => "lazy_font".into(),
+            Op::FormOps(_) => "form_operations".into(),
+            Op::Trees => "catalog_trees".into(),
         }
     }
     pub fn to_json(&self) -> J {
@@ -102,6 +108,8 @@ impl Op {
             Op::PageWalk(n) => json!({ "op": "page_walk", "n": n }),
             Op::LazyAnnots(n) => json!({ "op": "lazy_annots", "n": n }),
             Op::LazyFont(n) => json!({ "op": "lazy_font", "n": n }),
+            Op::FormOps(i) => json!({ "op": "form_operations", "id": i }),
+            Op::Trees => json!({ "op": "catalog_trees" }),
         }
     }
     pub fn from_json(j: &J) -> Option<Op> {
@@ -117,6 +125,8 @@ impl Op {
             "page_walk" => Op::PageWalk(n()?),
             "lazy_annots" => Op::LazyAnnots(n()?),
             "lazy_font" => Op::LazyFont(n()?),
+            "form_operations" => Op::FormOps(id()?),
+            "catalog_trees" => Op::Trees,
             _ => return None,
         })
     }
@@ -315,6 +325,53 @@ pub fn exec(file: &SimFile, res: &impl Resolve, own_resolver: bool, op: &Op) -> 
             Err(e) => Answer::err(&e),
         },
         Op::PageWalk(n) => page_walk(file, res, own_resolver, n),
+        Op::FormOps(id) => match res.get::<XObject>(r(id)) {
+            Ok(x) => match *x {
+                XObject::Form(ref f) => match f.operations(res) {
+                    Ok(ops) => Answer::ok_text(ops_digest(&ops)),
+                    Err(e) => Answer::err(&e),
+                },
+                _ => Answer::ok_text("not a form".into()),
+            },
+            Err(e) => Answer::err(&e),
+        },
+        Op::Trees => {
+            let root = file.get_root();
+            let mut s = String::new();
+            if let Some(names) = &root.names {
+                if let Some(d) = &names.dests {
+                    let mut items: Vec<String> = vec![];
+                    let r = d.walk(res, &mut |k, v| items.push(format!("{:?}={}", k, crate::digest::canon(&crate::digest::debug_bounded(v)))));
+                    s.push_str(&format!("dests[{}]:{:?} ", items.join(";"), r.map_err(|e| crate::digest::error_kind(&e))));
+                }
+            }
+            if let Some(labels) = &root.page_labels {
+                let mut items: Vec<String> = vec![];
+                let r = labels.walk(res, &mut |k, v| items.push(format!("{}={}", k, crate::digest::canon(&crate::digest::debug_bounded(v)))));
+                s.push_str(&format!("labels[{}]:{:?} ", items.join(";"), r.map_err(|e| crate::digest::error_kind(&e))));
+            }
+            if let Some(o) = &root.outlines {
+                let mut next = o.first;
+                let mut n = 0;
+                while let Some(rf) = next {
+                    n += 1;
+                    if n > 16 {
+                        break;
+                    }
+                    match res.get(rf) {
+                        Ok(item) => {
+                            s.push_str(&format!("outline {:?};", item.title));
+                            next = item.next;
+                        }
+                        Err(e) => {
+                            s.push_str(&format!("outline Err({});", crate::digest::error_kind(&e)));
+                            break;
+                        }
+                    }
+                }
+            }
+            Answer::ok_text(s)
+        }
         Op::LazyAnnots(n) => match page_of(file, res, own_resolver, n) {
             Ok(p) => answer_text(p.annotations.load(res).map(|v| {
                 let items: Vec<String> = v.iter().map(|a| match a {
@@ -468,7 +525,7 @@ pub fn right_ops(id: u64, kind: ObjKind) -> Vec<Op> {
         ObjKind::Pages => v.push(Op::Get(Ty::Pages, id)),
         ObjKind::Font => v.push(Op::Get(Ty::Font, id)),
         ObjKind::Image => v.extend([Op::Get(Ty::XObject, id), Op::StreamData(id), Op::RawImage(id), Op::ImageData(id), Op::Get(Ty::Stream, id)]),
-        ObjKind::Form => v.extend([Op::Get(Ty::XObject, id), Op::StreamData(id), Op::Get(Ty::Stream, id)]),
+        ObjKind::Form => v.extend([Op::Get(Ty::XObject, id), Op::StreamData(id), Op::Get(Ty::Stream, id), Op::FormOps(id)]),
         ObjKind::ObjStm => v.extend([Op::Get(Ty::ObjStm, id), Op::StreamData(id), Op::Get(Ty::Stream, id)]),
         ObjKind::Stream | ObjKind::XRef => v.extend([Op::StreamData(id), Op::Get(Ty::Stream, id)]),
         ObjKind::NameTree => v.push(Op::Get(Ty::NameTree, id)),
